@@ -295,6 +295,7 @@ def run(ctx):  # noqa: C901, PLR0912, PLR0915
     from .c02 import handouts_are_versioned
     handouts_are_versioned(ctx, 'C01.R2')   # what is committed carries a version the mirrors accept
     common.copies_are_deep(ctx, 'C01.R1')   # what is reported is what was committed: the published copies share nothing
+    ctx.borrow('C04', {'C04.R2'}, 'C01.R1', why='every committed state reaches a report part')
     # ------------------------------------------------------------------ R2
     upd_funcs = {}
     for h in STATE_HANDLERS:
